@@ -192,6 +192,6 @@ SUBS = {"gradient": Sub(predicate, strategy=cases), "convergence": Sub(conv_pred
 
 
 def jobs(tier):
-    n, nc = (70, 12) if tier == "quick" else (1800, 100)
+    n, nc = (70, 12) if tier == "quick" else (7000, 300)
     return ([{"sub": "gradient", "n": n, "shard": i} for i in range(14)] +
             [{"sub": "convergence", "n": nc, "shard": i} for i in range(2)])
